@@ -17,3 +17,163 @@ LEGS = [
 
 def run(ctx):
     progworld.run_program(ctx, ["c16"], force={"call": True})
+
+
+# ---------------------------------------------------------------------------
+# hooks legs: frames reached through custom stack items and through
+# elaborate_frame replacements / insertions (the greenback and Trio glue hand
+# generator-likes over this way)
+
+LEGS.append({"name": "hooks312", "python": "3.12", "quick": 4000, "thorough": 100000, "quick_s": 30, "thorough_s": 300, "params": {"mode": "hooks"}})
+LEGS.append({"name": "hooks39", "python": "3.9", "quick": 2000, "thorough": 50000, "quick_s": 30, "thorough_s": 200, "params": {"mode": "hooks"}})
+
+_hooks = {}
+
+
+class Box(object):
+    def __init__(self, payload):
+        self.payload = payload
+
+
+def setup(leg, params):
+    if params.get("mode") != "hooks":
+        return
+    import stackscope
+    from stackscope import _customization as cust
+
+    cust.unwrap_stackitem.register(Box, lambda box: _hooks["unwrap"](box))
+
+    def outer_gen(inner):
+        yield inner
+
+    _hooks["outer_gen"] = outer_gen
+    cust.elaborate_frame.register(outer_gen, lambda frame, next_inner: _hooks["elab"](frame, next_inner))
+
+
+def run_hooks(ctx):
+    import weakref
+    import stackscope
+    from stackscope._customization import FrameIterator
+    from ..kernel import Violation
+
+    t = ctx.tape
+
+    def gen_fn(depth):
+        if depth > 0:
+            yield from gen_fn(depth - 1)
+        else:
+            yield 1
+
+    async def coro_fn(depth):
+        if depth > 0:
+            await coro_fn(depth - 1)
+        else:
+            await Trap()
+
+    class Trap(object):
+        def __await__(self):
+            yield 1
+
+    async def agen_fn():
+        await Trap()
+        yield 1
+
+    made = []
+
+    def make():
+        k = t.choose(3)
+        if k == 0:
+            g = gen_fn(t.choose(3))
+            next(g)
+        elif k == 1:
+            g = coro_fn(t.choose(3))
+            g.send(None)
+        else:
+            g = agen_fn()
+            a = g.asend(None)
+            a.send(None)
+            made.append(a)
+        made.append(g)
+        return g
+
+    def wrap(objs):
+        form = t.choose(4)
+        if form == 0 and len(objs) == 1:
+            return objs[0]
+        if form == 1:
+            return tuple(objs)
+        if form == 2:
+            return list(objs)
+        return FrameIterator(iter(objs))
+
+    how = t.choose(3)
+    payload = [make() for _ in range(1 + t.choose(2))]
+    genlikes = [x for x in made]
+    elab_mode = t.choose(3)  # 0 none, 1 replacement, 2 insert before next_inner
+    repl = [make() for _ in range(1 + t.choose(2))] if elab_mode else []
+    genlikes = [x for x in made]
+    _hooks["unwrap"] = lambda box: wrap(box.payload)
+
+    def elab(frame, next_inner):
+        if elab_mode == 0:
+            return None
+        if elab_mode == 1:
+            return repl[0] if (len(repl) == 1 and t.choose(2)) else tuple(repl)
+        return tuple(repl) + (next_inner,)
+
+    _hooks["elab"] = elab
+    og = _hooks["outer_gen"](None)
+    next(og)
+    genlikes.append(og)
+    if how == 0:
+        root = Box(payload + [og])
+    elif how == 1:
+        root = Box([Box(payload), og])
+    else:
+        root = Box([og] + payload)
+    ctx.case = {"root_form": how, "elaborate": ("none", "replace", "insert")[elab_mode], "payload": [type(x).__name__ for x in payload], "replacement": [type(x).__name__ for x in repl]}
+    st = stackscope.extract(root)
+    if st.error is not None:
+        raise Violation("c16_hooks_error", "extract error %r" % (st.error,), ctx.case)
+    owners = {}
+    for g in genlikes:
+        for attr in ("gi_frame", "cr_frame", "ag_frame"):
+            fr = getattr(g, attr, None)
+            if fr is not None:
+                owners[id(fr)] = g
+    seen = 0
+    for f in st.frames:
+        g = owners.get(id(f.pyframe))
+        o = f.origin
+        if o is not None:
+            weakref.ref(o)
+            fo = stackscope.extract_outermost(o)
+            if fo.pyframe is not f.pyframe:
+                raise Violation("c16_origin_does_not_recover_frame", "hooks: frame %s has origin %s which recovers another frame" % (f.funcname, type(o).__name__), ctx.case)
+        if g is not None:
+            seen += 1
+            if o is not g:
+                raise Violation(
+                    "c16_origin_missing",
+                    "hooks (%r): frame %s is the frame of a suspended %s handed over by a hook but its origin is %s"
+                    % (ctx.case, f.funcname, type(g).__name__, type(o).__name__),
+                    ctx.case,
+                )
+    ctx.stat("c16_hook_frames_checked", seen)
+    ctx.cover(("c16hooks", how, elab_mode, tuple(type(x).__name__ for x in payload), tuple(type(x).__name__ for x in repl)))
+    ctx.log("hooks", how, elab_mode, len(st.frames), seen)
+    ctx.sample = ctx.case
+    for g in genlikes:
+        try:
+            g.close()
+        except Exception:
+            pass
+
+
+_run_program = run
+
+
+def run(ctx):
+    if ctx.params.get("mode") == "hooks":
+        return run_hooks(ctx)
+    return _run_program(ctx)
